@@ -14,7 +14,7 @@ Driver for C18 (package cache).  Requests:
 
 Response of seq/trace: `ok <outs of step 1>@<getSize>;... | size=<getSize> live=<liveSum> buckets=<ids> gens=<sizes> caches=<..>`
 or `err step <i>` when the i-th (0-based) step is not enabled.
-Outs: `-` | `v<val>` | `w` | `l` | `e` | `p` | `r<0|1>.<lastGenSize>` | `c<0|1>.<sizeToClean>.<gens>.<freed>.<bucketsCleaned>` |
+Outs: `-` | `v<val>` | `w` | `l` | `e` | `p` | `r<0|1>.<lastGenSize>` | `c<0|1>.<sizeToClean>.<gens>.<freed>.<bucketsCleaned>.<mapsRebuilt>` |
 `f<n>` | `n<count>`; several outs of one op are joined by `+`.
 -/
 open SV SV.Proto SV.Cache
@@ -28,15 +28,16 @@ def fmtOut : Out → String
   | .panic => "p"
   | .rotated b n => s!"r{fmtBool b}.{n}"
   | .cleanup b t g => s!"c{fmtBool b}.{t}.{g}"
-  | .freed n => s!"f{n}"
+  | .freed n b => s!"f{n}{if b then "R" else ""}"
   | .count n => s!"n{n}"
 
 /-- canonical form of the outs of one sequential op: a Cleanup pass is summarised the way `CleanStat` does -/
 def fmtOuts (os : List Out) : String :=
   match os with
   | .cleanup true t g :: rest =>
-    let freed := rest.filterMap fun o => match o with | .freed n => some n | _ => none
-    s!"c1.{t}.{g}.{freed.sum}.{(freed.filter (· ≠ 0)).length}"
+    let freed := rest.filterMap fun o => match o with | .freed n _ => some n | _ => none
+    let rebuilt := rest.filter fun o => match o with | .freed _ true => true | _ => false
+    s!"c1.{t}.{g}.{freed.sum}.{(freed.filter (· ≠ 0)).length}.{rebuilt.length}"
   | _ => "+".intercalate (os.map fmtOut)
 
 def genPos (s : St) (g : Nat) : String :=
@@ -50,7 +51,7 @@ def fmtCache (s : St) (c : Nat) : String :=
   let es := es.mergeSort fun a b => a.1 ≤ b.1
   let body := fmtList (fun (p : Nat × Entry) =>
     s!"{p.1}:{p.2.size}:{genPos s p.2.gen}:{match p.2.st with | .valid => "v" | .loading => "l" | .abandoned => "a"}") es
-  s!"{c}/{fmtBool (s.released c)}/{genPos s (s.cur c)}/{body}"
+  s!"{c}/{fmtBool (s.released c)}/{genPos s (s.cur c)}/{s.maxP c}/{body}"
 
 def fmtState (s : St) : String :=
   s!"size={getSize s} live={liveSum s.heap} buckets={fmtNats s.buckets} gens={fmtInts (s.glist.map s.gsize)} caches={fmtList (fmtCache s) (List.range s.ncaches) "|"}"
